@@ -72,6 +72,23 @@ Theorem enable_required_sound : forall fsn san cfg cfg',
 Proof. exact enable_required_sound_lemma. Qed.
 Print Assumptions enable_required_sound.
 
+(* ... and it adds NO NEW DUPLICATES: what it appends to either extractor list has pairwise different
+   names, none of which was enabled in the input configuration (an extractor required by several
+   detectors is enabled once); so duplicate-free extractor lists stay duplicate-free *)
+Theorem enable_required_no_new_duplicates : forall fsn san cfg cfg',
+  enable_required_extractors fsn san cfg = Some cfg' ->
+  (exists x y, cfg_fs cfg' = cfg_fs cfg ++ x /\ cfg_sa cfg' = cfg_sa cfg ++ y
+     /\ NoDup (map p_name x) /\ NoDup (map p_name y)
+     /\ (forall n, In n (map p_name x) \/ In n (map p_name y) ->
+           ~ In n (map p_name (cfg_fs cfg) ++ map p_name (cfg_sa cfg))))
+  /\ (NoDup (map p_name (cfg_fs cfg)) -> NoDup (map p_name (cfg_fs cfg')))
+  /\ (NoDup (map p_name (cfg_sa cfg)) -> NoDup (map p_name (cfg_sa cfg'))).
+Proof.
+  intros fsn san cfg cfg' H. split; [exact (enable_required_no_new_duplicates_lemma _ _ _ _ H)|].
+  exact (enable_required_keeps_nodup_lemma _ _ _ _ H).
+Qed.
+Print Assumptions enable_required_no_new_duplicates.
+
 (* ---------------------------------------------------------------- DATA (bound: the registry) *)
 
 (* plugin names are unique: inside each of the three lists and over all of them together *)
